@@ -13,7 +13,7 @@ PROP = dict(
     assumptions=["last write wins in request order within a batch (statement of C13)", "bool rows are 0/1; larger rows must be rejected by Field.Import"],
     tags=["gfrag", "gfapi"],
     units=[
-        U("fragmutex", ".", "^TestVerifC13_FragMutex$", 1000, 15000, sq=6, sth=14, timeout={"quick": 240, "thorough": 1500}),
-        U("api", "./server", "^TestVerifC13_API$", 240, 2000, sq=4, sth=10, timeout={"quick": 300, "thorough": 1800}),
+        U("fragmutex", ".", "^TestVerifC13_FragMutex$", 1000, 15000, sq=6, sth=14, timeout={"quick": 900, "thorough": 2400}),
+        U("api", "./server", "^TestVerifC13_API$", 240, 2000, sq=4, sth=10, timeout={"quick": 900, "thorough": 2400}),
     ],
 )
